@@ -70,6 +70,10 @@ ROWS = {
     "str_cref": dict(yaml="const std::string &{n}", cxx="const std::string &{n}", ty="str", intent="in", conv="rtrim",
                      lib_in="vt_str({n}.c_str(), (long){n}.size());", acc="acc += {w} * (long){n}.size();",
                      c_decl="const char *{n} = {v};", c_arg="{n}", c_in="vt_str({n}, -1);", vals=STR_VALS),
+    # std::string by value (strings.yaml acceptStringInstance): the same rules as const std::string &
+    "str_v": dict(yaml="std::string {n}", cxx="std::string {n}", ty="str", intent="in", conv="rtrim",
+                  lib_in="vt_str({n}.c_str(), (long){n}.size());", acc="acc += {w} * (long){n}.size();",
+                  c_decl="char {n}[] = {v};", c_arg="{n}", c_in="vt_str({n}, -1);", vals=STR_VALS),
     "str_ref_inout": dict(yaml="std::string &{n}", cxx="std::string &{n}", ty="str", intent="inout", conv="rtrim",
                           lib_in="vt_str({n}.c_str(), (long){n}.size());", acc="acc += {w} * (long){n}.size();",
                           lib_set='{n} = {n} + "+" + (char)(\'a\' + (acc % 26));', lib_out="vt_str({n}.c_str(), (long){n}.size());",
@@ -270,6 +274,7 @@ def base_cases():
     c.append(F("f2", "void", [P("int_pout", "p"), P("int_pinout", "q"), P("int_pin", "r")]))
     c.append(F("f3", "double", [P("int_ref", "r"), P("dbl_cref", "cr"), P("dbl_pout", "po")]))
     c.append(F("f4", "int", [P("cstr_in", "s"), P("str_cref", "t")]))
+    c.append(F("f4v", "int", [P("str_v", "s"), P("int_v", "a"), P("str_v", "t")]))
     c.append(F("f5", "void", [P("str_ref_inout", "io"), P("str_ref_out", "o"), P("int_v", "k")]))
     c.append(F("f6", "str_cref", [P("int_v", "a")]))
     c.append(F("f8", "cstr", [P("int_v", "a"), P("cstr_in", "s")]))
@@ -340,6 +345,7 @@ FROWS = {
                         fout="call vt_bool(merge(1_C_INT, 0_C_INT, {n}))", vk="bool"),
     "cstr_in": dict(decl="character(len={L}) :: {n}", set="{n} = {v}", arg="{n}", fin="call vt_str({n}, len({n}, kind=C_LONG))", vk="str"),
     "str_cref": dict(decl="character(len={L}) :: {n}", set="{n} = {v}", arg="{n}", fin="call vt_str({n}, len({n}, kind=C_LONG))", vk="str"),
+    "str_v": dict(decl="character(len={L}) :: {n}", set="{n} = {v}", arg="{n}", fin="call vt_str({n}, len({n}, kind=C_LONG))", vk="str"),
     "str_ref_inout": dict(decl="character(len={L}) :: {n}", set="{n} = {v}", arg="{n}", fin="call vt_str({n}, len({n}, kind=C_LONG))",
                           fout="call vt_str({n}, len({n}, kind=C_LONG))", vk="str", back="pad"),
     "str_ref_out": dict(decl="character(len={L}) :: {n}", set="{n} = 'junk'", arg="{n}",
